@@ -622,7 +622,14 @@ func GenC18(seed uint64) *Scenario {
 	silent := []int{0, 0, 30, 100}[g.r.Intn(4)] // permille of updates that name a rating group nobody provisioned: both peers stay silent
 	lossy := []int{0, 0, 20}[g.r.Intn(3)]       // permille of updates whose first credit answer is lost
 	restarts := []int{0, 0, 50, 200}[g.r.Intn(4)] // permille of updates during which a peer closes the connection right after the handshake
-	g.sc.Shape += fmt.Sprintf(" silent=%d lossy=%d restarts=%d", silent, lossy, restarts)
+	// several subscribers: half of the histories have one consumer per subscriber working in
+	// parallel, so that requests of different subscribers (and their time-outs) overlap
+	parallel := nSub > 1 && g.r.Chance(500)
+	if parallel && silent == 0 {
+		silent = []int{50, 100, 200}[g.r.Intn(3)] // overlapping time-outs of different subscribers are the point of this family
+	}
+	g.sc.Shape += fmt.Sprintf(" silent=%d lossy=%d restarts=%d parallel=%v", silent, lossy, restarts, parallel)
+	owner := map[int]int{} // op id -> subscriber
 	for i := 0; i < n; i++ {
 		s := 1 + g.r.Intn(nSub)
 		rg := int32(1)
@@ -631,21 +638,42 @@ func GenC18(seed uint64) *Scenario {
 		}
 		op := Op{ID: g.id(), Kind: "update", Supi: supiN(s), Sess: fmt.Sprintf("s%d", s),
 			Units: []Unit{{RG: rg, Req: int32(100 + g.r.Intn(100)), Containers: []Container{g.online(1000)}}}}
+		owner[op.ID] = s
+		ftask := 0
+		if parallel {
+			ftask = s - 1
+		}
 		if rg == 1 && g.r.Chance(restarts) {
 			// the peer restarts right after the capabilities exchange: the request cannot be written
-			g.sc.Faults = append(g.sc.Faults, simnet.Fault{Peer: []string{"rf", "abmf"}[g.r.Intn(2)], Task: 0, Op: op.ID, Dir: "ans",
+			g.sc.Faults = append(g.sc.Faults, simnet.Fault{Peer: []string{"rf", "abmf"}[g.r.Intn(2)], Task: ftask, Op: op.ID, Dir: "ans",
 				Cmd: 257, Nth: g.r.Intn(2), Kind: simnet.KCloseAfter})
 		}
 		if rg == 1 && g.r.Chance(lossy) {
-			g.sc.Faults = append(g.sc.Faults, simnet.Fault{Peer: []string{"rf", "abmf"}[g.r.Intn(2)], Task: 0, Op: op.ID, Dir: "ans",
+			g.sc.Faults = append(g.sc.Faults, simnet.Fault{Peer: []string{"rf", "abmf"}[g.r.Intn(2)], Task: ftask, Op: op.ID, Dir: "ans",
 				Cmd: 0, Nth: 1, Kind: []string{simnet.KDrop, simnet.KStall, simnet.KWithhold}[g.r.Intn(3)], DelayNs: 1_000_000})
 		}
 		ops = append(ops, op)
 		if g.r.Chance(50) {
-			ops = append(ops, Op{ID: g.id(), Kind: "sleep", SleepNs: g.r.Range(1, 20) * 1_000_000_000})
+			sl := Op{ID: g.id(), Kind: "sleep", SleepNs: g.r.Range(1, 20) * 1_000_000_000}
+			owner[sl.ID] = s
+			ops = append(ops, sl)
 		}
 	}
 	g.sc.Tasks = []Task{{ID: 0, Ops: ops}}
+	if parallel {
+		tasks := make([]Task, nSub)
+		for i := range tasks {
+			tasks[i].ID = i
+		}
+		for i, op := range ops {
+			s := owner[op.ID]
+			if op.Kind == "create" {
+				s = i + 1 // the creates come first, one per subscriber
+			}
+			tasks[s-1].Ops = append(tasks[s-1].Ops, op)
+		}
+		g.sc.Tasks = tasks
+	}
 	return g.sc
 }
 
